@@ -5,8 +5,14 @@ use crate::base::{
 };
 use crate::utils::format_time_nanos_curr;
 use crate::{Error, Result};
+#[cfg(not(sentinel_verif))]
 use std::sync::Arc;
+#[cfg(sentinel_verif)]
+use sentinel_verif_rt::sync::Arc;
+#[cfg(not(sentinel_verif))]
 use std::sync::RwLock;
+#[cfg(sentinel_verif)]
+use sentinel_verif_rt::sync::RwLock;
 
 // EntryBuilder is the basic API of Sentinel.
 pub struct EntryBuilder {
